@@ -366,7 +366,12 @@ func checkOnce(t *T, prop func(*T)) (err *testError) {
 	if t.tbLog {
 		t.tb.Helper()
 	}
-	defer func() { err = panicToError(recover(), 3) }()
+	defer func() {
+		err = panicToError(recover(), 3)
+		if err == nil || err.isInvalidData() {
+			err = t.failedError(err) // non-fatal failure signaled from a cleanup function or before a skip
+		}
+	}()
 
 	defer t.cleanup()
 	prop(t)
@@ -785,6 +790,17 @@ func (t *T) fail(now bool, msg string) {
 	if now {
 		panic(t.failed)
 	}
+}
+
+func (t *T) failedError(err *testError) *testError {
+	t.mu.RLock()
+	defer t.mu.RUnlock()
+
+	if t.failed == "" {
+		return err
+	}
+
+	return &testError{data: t.failed, traceback: "    <non-fatal failure>\n"}
 }
 
 func (t *T) failOnError() {
